@@ -1209,6 +1209,14 @@ def put(d, k, v):
     return r
 
 
+def put_opt(d, k, v):
+    """d with d[k] = v when v is not None, else d (a new dict)"""
+    r = dict(d)
+    if v is not None:
+        r[k] = v
+    return r
+
+
 def drop(d, k):
     """d without key k (a new dict)"""
     r = dict(d)
@@ -1297,6 +1305,18 @@ def q_put(ex, args, kwargs):
     return mk_dyn(d_put(_dict_term(ex, d), key_id(ex, k), to_dyn(ex, v)))
 
 
+def q_put_opt(ex, args, kwargs):
+    d, k, v = args
+    t, kid, vt = _dict_term(ex, d), key_id(ex, k), z3.simplify(to_dyn(ex, v))
+    nn = z3.simplify(z3.Not(Dyn.is_none(vt)))
+    if z3.is_true(nn):
+        return mk_dyn(d_put(t, kid, vt))
+    if z3.is_false(nn):
+        return mk_dyn(t)
+    had = z3.Select(Dyn.dom(t), kid)
+    return mk_dyn(Dyn.d(z3.Store(Dyn.dom(t), kid, z3.Or(had, nn)), z3.Store(Dyn.val(t), kid, z3.If(nn, vt, z3.Select(Dyn.val(t), kid))), Dyn.size(t) + z3.If(z3.And(nn, z3.Not(had)), 1, 0)))
+
+
 def q_drop(ex, args, kwargs):
     d, k = args
     return mk_dyn(d_drop(_dict_term(ex, d), key_id(ex, k)))
@@ -1350,6 +1370,7 @@ SS.SPEC_FORMS.update(
         hexs: q_hexs,
         unhex: q_unhex,
         put: q_put,
+        put_opt: q_put_opt,
         drop: q_drop,
         merged: q_merged,
         frozen: q_frozen,
